@@ -122,7 +122,11 @@ Qed.
 
 (* witnesses for the excluded shapes: the implementation and the C++ rules differ *)
 Definition mk (bs : list base) (fs : list field) (ms : list method) dc cc ccn oc mv dt : classdef :=
-  {| c_bases := bs; c_fields := fs; c_methods := ms; c_dctor := dc; c_cctor := cc; c_cctor_nonconst := ccn; c_other_ctor := oc; c_move := mv; c_dtor := dt |}.
+  {| c_bases := bs; c_fields := fs; c_methods := ms; c_dctor := dc; c_cctor := cc; c_cctor_nonconst := ccn; c_other_ctor := oc; c_move := mv; c_dtor := dt;
+     c_dtor_pure := false |}.
+Definition mkp (bs : list base) (dt : option (special * bool)) (pure : bool) : classdef :=
+  {| c_bases := bs; c_fields := []; c_methods := []; c_dctor := None; c_cctor := None; c_cctor_nonconst := false; c_other_ctor := false; c_move := false; c_dtor := dt;
+     c_dtor_pure := pure |}.
 Example const_member_refuted :
   let cs := [mk [] [{| f_ty := FConstScalar; f_init := false; f_static := false |}] [] None None false false false None] in
   map traits_of (analyze Impl cs) <> map traits_of (analyze Cxx cs).
@@ -148,3 +152,26 @@ Example frag_example :
       {| t_abstract := false; t_poly := true; t_dflt := false; t_copy := true; t_destr := true |};
       {| t_abstract := false; t_poly := true; t_dflt := true; t_copy := true; t_destr := true |} ].
 Proof. vm_compute. split; reflexivity. Qed.
+
+(* a pure virtual destructor: B { virtual ~B() = 0; }  D : B { }  E : B { ~E(); }  F : B { virtual ~F() = 0; }.
+   Only B and F are abstract (D's implicit destructor overrides B's); inside the fragment, so the implementation agrees.  *)
+Definition pure_dtor_classes : list classdef :=
+  let pub := {| sp_access := Public; sp_deleted := false |} in
+  let fromB := [{| b_class := 0; b_access := Public; b_virtual := false |}] in
+  [mkp [] (Some (pub, true)) true; mkp fromB None false; mkp fromB (Some (pub, false)) false; mkp fromB (Some (pub, true)) true].
+Example pure_dtor_example :
+  forallb class_frag pure_dtor_classes = true /\
+  map (fun s => (s_abstract s, s_poly s)) (analyze Impl pure_dtor_classes) = [(true, true); (false, true); (false, true); (true, true)].
+Proof. vm_compute. split; reflexivity. Qed.
+(* the pinned get_pure_virtual_funcs counted the inherited entry: D was reported abstract *)
+Theorem inherited_pure_dtor_pinned_refuted :
+  exists cs i, forallb class_frag cs = true /\
+    abstract_pinned (s_vfuncs (lookup (analyze Impl cs) i)) = true /\ s_abstract (lookup (analyze Cxx cs) i) = false.
+Proof. exists pure_dtor_classes, 1. vm_compute. repeat split; reflexivity. Qed.
+
+(* an abstract class always has a pure entry in its list: the repair only removes inherited destructors *)
+Lemma abstract_implies_pinned md env c : s_abstract (analyze1 md env c) = true -> abstract_pinned (s_vfuncs (analyze1 md env c)) = true.
+Proof.
+  cbn [analyze1 s_abstract s_vfuncs]. unfold abstract_pinned. rewrite !existsb_exists.
+  intros (f & Hin & Hp). exists f. split; [exact Hin|]. unfold counts_pure in Hp. apply andb_true_iff in Hp. tauto.
+Qed.
